@@ -141,7 +141,8 @@ pub fn build_route(b: &Bits, route: u8, chunk: &[u8]) -> BitVector {
         1 => BitVector::from(raw_by_set_bit(b)),
         2 => BitVector::from(raw_by_push_int(b, chunk)),
         3 => b.to_bools().into_iter().collect::<BitVector>(),
-        4 => (0..b.len).filter(|_| true).map(|i| b.get(i)).collect::<BitVector>(),
+        // an iterator with the size hint (0, Some(len + 2^56)): only the lower bound may be relied on
+        4 => (0..b.len).filter(|_| true).map(|i| b.get(i)).chain((0..(1u64 << 56)).take_while(|_| false).map(|_| false)).collect::<BitVector>(),
         5 => BitVector::from(sparse_from(b)),
         6 => BitVector::from(rl_from(b)),
         7 => BitVector::copy_bit_vec(&sparse_from(b)),
@@ -254,6 +255,40 @@ fn check(case: &Case, full_limit: usize) -> CaseResult {
     let raw: &RawVector = bv.as_ref();
     ensure_eq!(raw.len(), n, "BitVector.as_ref", "raw length");
     ensure_eq!(raw.count_ones(), m, "BitVector.as_ref", "raw count_ones");
+    // the public building blocks of the supports, asked directly with valid arguments
+    if n <= 6000 {
+        use simple_sds::bit_vector::rank_support::RankSupport;
+        use simple_sds::bit_vector::select_support::SelectSupport;
+        use simple_sds::bit_vector::{Complement, Identity};
+        let rs = RankSupport::new(&bv);
+        let s1 = SelectSupport::<Identity>::new(&bv);
+        let s0 = SelectSupport::<Complement>::new(&bv);
+        let step = (n / 97).max(1);
+        let mut i = 0;
+        while i < n {
+            ensure_eq!(rs.rank(&bv, i), model.rank(i), "RankSupport.rank", "RankSupport::rank(bv, {})", i);
+            i += step;
+        }
+        let mstep = (m / 61).max(1);
+        let mut r = 0;
+        while r < m {
+            ensure_eq!(Some(s1.select(&bv, r)), model.select(r), "SelectSupport.select", "SelectSupport::<Identity>::select(bv, {})", r);
+            r += mstep;
+        }
+        let z = n - m;
+        let zstep = (z / 61).max(1);
+        let mut r = 0;
+        while r < z {
+            ensure_eq!(Some(s0.select(&bv, r)), model.select_zero(r), "SelectSupport.select", "SelectSupport::<Complement>::select(bv, {})", r);
+            r += zstep;
+        }
+        if m > 0 {
+            ensure_eq!(Some(s1.select(&bv, m - 1)), model.select(m - 1), "SelectSupport.select", "SelectSupport::<Identity>::select of the last set bit");
+        }
+        if z > 0 {
+            ensure_eq!(Some(s0.select(&bv, z - 1)), model.select_zero(z - 1), "SelectSupport.select", "SelectSupport::<Complement>::select of the last unset bit");
+        }
+    }
     // clone_from() onto a vector with other bits and supports gives the same vector: nothing cached in the target may survive
     {
         let mut other = BitVector::from(RawVector::with_len(n / 2 + 77, true));
